@@ -613,14 +613,15 @@ private:
    void read_stripped_data( const View& dst_view
                           , int         plane     )
    {
-      using is_view_bit_aligned_t = typename is_bit_aligned<typename View::value_type>::type;
-
       //using row_buffer_helper_t =detail::row_buffer_helper_view<View>;
       using row_buffer_helper_t = Buffer;
       using it_t = typename row_buffer_helper_t::iterator_t;
 
-      std::size_t size_to_allocate = buffer_size< typename View::value_type >( dst_view.width()
-                                                                             , is_view_bit_aligned_t() );
+      // The buffer holds one scanline of the file: its size is counted in elements of the buffer
+      // (pixels of the file's type, or bytes for bit-aligned files), not in pixels of the destination
+      // view, which are wider for converting reads.
+      std::size_t size_to_allocate = buffer_size< typename row_buffer_helper_t::element_t >( dst_view.width()
+                                                                                            , std::false_type() );
       row_buffer_helper_t row_buffer_helper( size_to_allocate, true );
 
       it_t begin = row_buffer_helper.begin();
